@@ -838,10 +838,19 @@ impl<'a, Octs: Octets> Iterator for UpdateIterator<'a, Octs> {
             if self.parser.remaining() == 0 {
                 return None;
             }
-            let mut m = CommonHeader::parse(&mut self.parser)
-                .inspect_err(|e| eprintln!(
-                    "failed to parse CommonHeader, fusing iterator: {e}"
-                )).ok()?;
+            let mut m = match CommonHeader::parse(&mut self.parser) {
+                Ok(m) => m,
+                Err(e) => {
+                    eprintln!(
+                        "failed to parse CommonHeader, fusing iterator: {e}"
+                    );
+                    // Really fuse: the failed parse leaves the parser in the
+                    // middle of the broken record, and a further call to
+                    // next() would resume parsing from there.
+                    self.parser.advance_to_end();
+                    return None;
+                }
+            };
 
             match m.msg_type {
                 MessageType::Bgp4Mp | MessageType::Bgp4MpEt => { }
